@@ -84,8 +84,9 @@ Proof.
   - apply (inv_sock_there _ I).
     assert (H : forall t u, v_kind (fold_left step t u) = v_kind u).
     { induction t as [|l t IH]; intros u; cbn [fold_left]; [reflexivity|]. rewrite IH.
-      destruct l as [| |c|c|]; cbn [step].
+      destruct l as [| | |c|c|]; cbn [step].
       - destruct (v_started u); reflexivity.
+      - destruct (v_listening u); reflexivity.
       - destruct (v_listening u); reflexivity.
       - destruct (nth_error (v_conns u) c) as [x|]; [|reflexivity].
         destruct (k_client_open x && k_session x); [|reflexivity].
